@@ -71,6 +71,55 @@ fn templates() -> Vec<(String, String, String, String)> {
         let exp = if ok { format!("t\nsome({a})\n") } else { "none\n".to_string() };
         v.push((format!("opt-void({a})"), src, exp, "done".into()));
     }
+    v.extend(void_param_templates());
+    v
+}
+
+/// functions and a lambda with void-typed parameters (explicit `u: void` in first / middle / last position and
+/// several of them; a type parameter instantiated with void by passing `nil`): `?` on its success and failure
+/// path, `!`, explicit `return`, implicit result — with live caller locals around the call and the call used inside
+/// an operand.  A void parameter binds `nil` and occupies no argument slot.
+fn void_param_templates() -> Vec<(String, String, String, String)> {
+    let defs = "fn fv1(u: void, a: int) -> option<int> {\n  let v = mk(a)?\n  println(\"t1\")\n  option.some(v + 1)\n}\n\
+        fn fv2(a: int, u: void, b: int) -> option<int> {\n  let v = 1 + mk(a)? + b\n  option.some(v)\n}\n\
+        fn fv3(a: int, u: void) -> result<int, string> {\n  let v = add(100, mkr(a)?)\n  println(u)\n  result.ok(v)\n}\n\
+        fn fv4(u: void, a: int, w: void, b: int, z: void) -> option<int> {\n  let x = mk(a)?\n  let y = mk(b)?\n  option.some(x * 10 + y)\n}\n\
+        fn fg(ctx: T, a: int, b: int) -> result<int, string> {\n  let x = mkr(a)?\n  let y = mkr(b)?\n  result.ok(x + y)\n}\n\
+        fn fr(u: void, a: int, w: void) -> int {\n  if a < 0 {\n    return 0 - a\n  }\n  a * 2\n}\n\
+        fn fu(u: void, a: int) -> int {\n  mk(a)! + 1\n}\n\
+        fn run(a: int) -> option<int> {\n  let s = 1000\n  let r = s + fv1(nil, a)? + fv2(a, nil, 5)?\n  println(s)\n  option.some(r)\n}\n";
+    let mut v = vec![];
+    for a in [-3i64, 0, 2, 7] {
+        let ok = a >= 0;
+        let lit = if a < 0 { format!("({a})") } else { format!("{a}") };
+        let src = format!(
+            "{}{defs}let sentinel = 777\nlet lamv = (u: void, x: int) -> {{\n  if x < 0 {{ 0 - x }} else {{ x + sentinel }}\n}}\n\
+             println(fv1(nil, {lit}))\nprintln(sentinel + 1)\n\
+             println(fv2({lit}, nil, 5))\nprintln(fv3({lit}, nil))\nprintln(fv4(nil, {lit}, nil, 5, nil))\nprintln(fv4(nil, 5, nil, {lit}, nil))\n\
+             println(fg(nil, {lit}, 2))\nprintln(fg(7, {lit}, 2))\nprintln(fg(nil, 2, {lit}))\nprintln(fg(\"c\", 2, {lit}))\n\
+             println(fr(nil, {lit}, nil))\nprintln(run({lit}))\nprintln(lamv(nil, {lit}))\nprintln(sentinel)\n\
+             println(10 + fu(nil, {lit}))\nprintln(sentinel)\n",
+            mk_fns()
+        );
+        let o = |x: Option<i64>| match x { Some(n) => format!("some({n})"), None => "none".to_string() };
+        let r = |x: Result<i64, i64>| match x { Ok(n) => format!("ok({n})"), Err(e) => format!("err(neg{e})") };
+        let mut exp = String::new();
+        if ok { exp.push_str("t1\n"); }
+        exp.push_str(&format!("{}\n778\n", o(if ok { Some(a + 1) } else { None })));
+        exp.push_str(&format!("{}\n", o(if ok { Some(1 + a + 5) } else { None })));
+        if ok { exp.push_str(&format!("add\nnil\n{}\n", r(Ok(100 + a)))); } else { exp.push_str(&format!("{}\n", r(Err(a)))); }
+        exp.push_str(&format!("{}\n", o(if ok { Some(a * 10 + 5) } else { None })));
+        exp.push_str(&format!("{}\n", o(if ok { Some(50 + a) } else { None })));
+        let g1 = if ok { r(Ok(a + 2)) } else { r(Err(a)) };
+        exp.push_str(&format!("{g1}\n{g1}\n"));
+        let g2 = if ok { r(Ok(2 + a)) } else { r(Err(a)) };
+        exp.push_str(&format!("{g2}\n{g2}\n"));
+        exp.push_str(&format!("{}\n", if a < 0 { -a } else { a * 2 }));
+        if ok { exp.push_str(&format!("t1\n1000\n{}\n", o(Some(1000 + (a + 1) + (1 + a + 5))))); } else { exp.push_str("none\n"); }
+        exp.push_str(&format!("{}\n777\n", if a < 0 { -a } else { a + 777 }));
+        let kind = if ok { exp.push_str(&format!("{}\n777\n", 10 + a + 1)); "done" } else { "error:panic" };
+        v.push((format!("void-param({a})"), src, exp, kind.into()));
+    }
     v
 }
 
